@@ -379,3 +379,37 @@ def group_behaviours(js):
         key = tuple(tuple(sorted((k, repr(v)) for k, v in r.items() if k not in ("st", "ok", "keep"))) for r in h)
         groups.setdefault(key, []).extend(expand_keep(h))
     return groups
+
+
+def known_probes(ctx):
+    """Deterministic reproductions of the two known findings of the arm layer, so that every run reports them
+    (KNOWN-FINDING lines) from fixed inputs; a probe that no longer fails is reported as such in the evidence."""
+    from basic_robotics.general import tm
+    out = {}
+    spec = zoo.spec_6r()
+    # exp_cutoff: a joint angle in (0, 1e-6) is applied without its rotation
+    arm = zoo.build(spec, np.eye(4))
+    th = np.array([0.4, -0.3, 0.5, 5e-7, 0.2, -0.6])
+    with contextlib.redirect_stdout(io.StringIO()):
+        got = arm.FK(th.copy()).gTM()
+    want = zoo.fk_expected(spec, np.eye(4), spec["M"], th)
+    dev = mdiff(got, want)
+    out["exp_cutoff"] = dev
+    if dev > TOL and "exp_cutoff" in ctx.known:
+        ctx.violation("O1_FK=base*PoE*tool", {"probe": "exp_cutoff", "theta": th.tolist()}, expected=want.tolist(), observed=got.tolist(),
+                      tags=["exp_cutoff"])
+    # log_near_pi: setArbitraryHome when the requested tool pose is a rotation of pi - 2e-5 away from the current one
+    arm = zoo.build(spec, np.eye(4))
+    th = np.array([0.3, 0.2, -0.4, 0.5, 0.1, -0.2])
+    E = zoo.fk_expected(spec, np.eye(4), spec["M"], th)
+    ax = np.array([0.36, 0.48, 0.8])
+    N = E @ rf.taa_to_tm([0.1, -0.2, 0.3] + list(ax * (PI - 2e-5)))
+    with contextlib.redirect_stdout(io.StringIO()):
+        arm.setArbitraryHome(tm(N.copy()), th.copy())
+        got = arm.FK(th.copy()).gTM()
+    dev = mdiff(got, N)
+    out["log_near_pi"] = dev
+    if dev > TOL and "log_near_pi" in ctx.known:
+        ctx.violation("O2_tool_change", {"probe": "log_near_pi"}, expected=N.tolist(), observed=got.tolist(), tags=["log_near_pi"])
+    ctx.cov["known_finding_probe_deviation"] = out
+    return out
